@@ -58,8 +58,21 @@ def tokenize(text):
     return out
 
 
+# pure symbol tokens that may stand directly against a number, a name or a
+# string (`1!=2`, `x+1`, `5!>f()`, `a->b`); two symbol tokens are never glued
+GLUE_OPS = {"+", "-", "*", "/", "%", "==", "!=", "<>", "<", ">", "<=", ">=",
+            "!>", "->", "=", "+=", "-=", "*=", "/=", "%=", "=>", "<<", ">>",
+            "<*", "*>", "<<<", ">>>", "..."}
+
+
+def is_word(t):
+    return bool(t) and (t[0].isalnum() or t[0] in "_'\"") and \
+        (t[-1].isalnum() or t[-1] in "_'\"")
+
+
 def empty_ok(t1, t2):
-    return t1 in PUNCT or t2 in PUNCT
+    return t1 in PUNCT or t2 in PUNCT or \
+        (t1 in GLUE_OPS and is_word(t2)) or (is_word(t1) and t2 in GLUE_OPS)
 
 
 def render(tokens, seps=None, lead="", trail=""):
@@ -120,6 +133,12 @@ def uniform(tokens):
     for a in SEPS[1:] + [""]:
         yield [a if (a != "" or empty_ok(tokens[i], tokens[i + 1])) else " "
                for i in range(n)]
+
+
+def tight(tokens):
+    """the empty separator at every boundary where it is legal"""
+    return [("" if empty_ok(tokens[i], tokens[i + 1]) else " ")
+            for i in range(len(tokens) - 1)]
 
 
 # ---- literal spellings -----------------------------------------------------
